@@ -71,7 +71,8 @@ def gen_case(rng, tier="quick"):
     case = {"api": api, "progress": progress, "steps": steps,
             "pt": _pick(rng, ["z", "x"]), "npts": _pick(rng, [1, 1, 2]),
             "calls": 1, "fault": None}
-    if api in ("tempo", "mean_field_tempo", "pt_tebd") and rng.random() < 0.4:
+    if api in ("tempo", "mean_field_tempo", "pt_tebd", "gibbs_tempo",
+               "pt_tempo") and rng.random() < 0.4:
         case["calls"] = 2
     if api == "pt_tebd":
         case["parallel"] = _pick(rng, [None, "multithread", "multiprocess"],
@@ -517,7 +518,7 @@ def sc_pt_tempo(case, sim, plan):
             return ptt.get_process_tensor(progress_type=case["progress"])
         ptt.compute(progress_type=case["progress"])
         return ptt
-    return [call]
+    return [call] * case.get("calls", 1)
 
 
 def sc_gibbs_tempo(case, sim, plan):
@@ -533,7 +534,7 @@ def sc_gibbs_tempo(case, sim, plan):
 
     def call():
         return gt.compute(progress_type=case["progress"])
-    return [call]
+    return [call] * case.get("calls", 1)
 
 
 def sc_pt_tebd(case, sim, plan):
